@@ -50,7 +50,8 @@ class ShapeDescriptionBase:
         self.thermoFactorMin = 1
 
     def _processAspectRatio(self, ar):
-        ar = np.atleast_1d(ar)
+        #Copy so that the array of the caller is not modified
+        ar = np.array(ar, dtype=np.float64, ndmin=1)
         ar[ar < 1] = 1
         return ar
 
